@@ -217,7 +217,15 @@ def check(ctx):
         preds = [c for c in prog.closures_of(start) if any(True for _ in c.iter_calls())]
         search = [(b, t, n) for b, t, n, ch in lib.field_method_calls(start, ty, pending_field(prog, ty, prep) or "?")
                   if T.classify(n) == "first-match-search"]
-        if not search:
+        loop_claims = lib.loop_first_match(start, ty, pending_field(prog, ty, prep) or "?") if not search else []
+        for (L_, cb_, other) in loop_claims:
+            only_sysid = bool(other) and all(o[0] == "arg" and start.local_ty(o[1]).endswith("SystemCommand") for o in other)
+            param_tys = [start.local_ty(i) for i in range(2, start.arg_count + 1)]
+            ctx.check(not only_sysid, "C03.d", "%s::start:system-id-only" % tname, start.loc(cb_),
+                      "claim predicate depends on %s" % lib.origin_str(other),
+                      "pending metadata is claimed by first match on the system id alone (parameters %s): two pending entries of one "
+                      "system cannot be told apart, so a replayed run can receive another command's metadata" % param_tys)
+        if not search and not loop_claims:
             ctx.fail("C03.d", "%s::start:anchor-lost:claim-search" % tname, "%s:%d" % (start.file, start.line), "no first-match search on the pending list")
         for b, t, n in search:
             inputs = set()
